@@ -25,15 +25,17 @@ m = re.search(r'(Status of the suspicions of section 5:.*?)\n\n', s[a:b], re.S)
 if m:
     out += [m.group(1), '']
 out += ['## 10. Seeded changes and which checks catch them', '',
-        'Two rounds of fresh sub-agents (one per property and round; each was given only the property text,',
-        'in round 2 also a one-line description of the round-1 change to avoid, and its own scratch worktree)',
-        'produced 40 changes that compile, pass the repository\'s suite and break the property under specific',
+        'Three rounds of fresh sub-agents (one per property and round; each was given only the property text,',
+        'from round 2 on also one-line descriptions of the earlier changes to avoid, and its own scratch worktree)',
+        'produced NSEEDS changes that compile, pass the repository\'s suite and break the property under specific',
         'conditions.  Each was confirmed by me in a scratch worktree (`confirm_seed.sh`) and is kept under',
-        '`seeded/<id>/` (round 1) and `seeded/<id>-2/` (round 2) with its demonstration.  `seedsweep.sh`',
-        'applies each to /repo in turn, runs the catching check and restores /repo.', '',
+        '`seeded/<id>/` (round 1), `seeded/<id>-2/` and `seeded/<id>-3/` with its demonstration (one round-3 change',
+        'became void when the baseline defect it relied on was repaired: `seeded/_not_kept/`).  `seedsweep.sh` applies',
+        'each to a scratch worktree in turn (`VERIF_REPO`) and runs the catching check there.', '',
         '| seed | change (author\'s summary, shortened) | caught by | first verdict |', '|---|---|---|---|']
 missed = 0
-for d in sorted(glob.glob('/verif/seeded/*/')):
+dirs = sorted(glob.glob('/verif/seeded/C*/'))
+for d in dirs:
     m_ = json.load(open(d + 'meta.json'))
     sid = os.path.basename(d.rstrip('/'))
     summ = m_.get('summary') or ''
@@ -45,9 +47,10 @@ for d in sorted(glob.glob('/verif/seeded/*/')):
     if first.startswith('MISSED'):
         missed += 1
     out.append('| %s | %s | %s | %s |' % (sid, summ, m_.get('caught_by', '').replace('|', '\\|'), first))
-out += ['', '%d of the 40 were missed by the checks as they stood when the change arrived; what was missing and what was' % missed,
+out += ['', '%d of the %d were missed by the checks as they stood when the change arrived; what was missing and what was' % (missed, len(dirs)),
         'added is in each `meta.json` (`history`) and summarised in section 8.4.  After the strengthening every one of',
-        'the 40 is caught in the quick tier (several by more than one check).', '']
+        'them is caught in the quick tier (several by more than one check).', '']
+out = [l.replace('NSEEDS', str(len(dirs))) for l in out]
 s = s[:a] + '\n'.join(out) + '\n' + s[b:]
 open(D, 'w').write(s)
 print('fixes', len(fixes), 'findings', len(k['findings']), 'missed', missed)
